@@ -113,6 +113,16 @@ pub fn inputs(tier: Tier) -> serde_json::Value {
       k <= n1 || k % 3 == 0
     });
   }
+  // constructs that keep validator state across nested validators (generics, sockets, unwrap, group-to-choice, recursion):
+  // the shared-feature family of C04 without the operators that need additional-controls / freezer
+  for sch in crate::c04::shared_feature_schemas() {
+    if !gated(&sch) {
+      schemas.push(sch);
+    }
+  }
+  for sch in ["r = m<int>\nm<t> = {* tstr => t}\n", "r = m<int>\nm<t> = {+ tstr => t}\n", "r = m<tstr, int>\nm<k, v> = {* k => v}\n", "r = [* m<int>]\nm<t> = {a: t, * tstr => t}\n"] {
+    schemas.push(sch.to_string());
+  }
   let universe = json_universe(Tier::Quick);
   let json_docs: Vec<String> = universe.iter().map(to_json_text).collect();
   let cbor_docs: Vec<String> = universe.iter().chain(cbor_extra(Tier::Quick).iter()).map(|v| hex(&crate::cborref::preferred(v))).collect();
@@ -165,7 +175,7 @@ fn build_and_run(mask: u32, worker: usize, input: &str) -> Built {
         let tag = it.next().unwrap_or("");
         let rest = it.next().unwrap_or("");
         let (k, v) = match tag {
-          "P" | "A" | "F" => {
+          "P" | "A" | "F" | "PV" => {
             let mut p = rest.splitn(3, ' ');
             let (fam, i, v) = (p.next().unwrap_or(""), p.next().unwrap_or(""), p.next().unwrap_or(""));
             (format!("{tag} {fam} {i}"), v.to_string())
@@ -336,6 +346,7 @@ pub fn run(tier: Tier) -> i32 {
           "P" => "acceptance-differs",
           "A" => "ast-differs",
           "F" => "formatted-text-differs",
+          "PV" => "parent-index-differs",
           _ => "verdict-differs",
         };
         *kinds.entry(kind.into()).or_insert(0) += 1;
@@ -345,7 +356,7 @@ pub fn run(tier: Tier) -> i32 {
           let mut f = k.split(' ');
           let (_t, a1, a2) = (f.next(), f.next().unwrap_or(""), f.next().unwrap_or(""));
           let what = match tag {
-            "P" | "A" | "F" => json!({"document": inp[a1][a2.parse::<usize>().unwrap_or(0)]}),
+            "P" | "A" | "F" | "PV" => json!({"document": inp[a1][a2.parse::<usize>().unwrap_or(0)]}),
             "VJ" => json!({"schema": inp["schemas"][a1.parse::<usize>().unwrap_or(0)], "json": inp["json_docs"][a2.parse::<usize>().unwrap_or(0)]}),
             "VC" => json!({"schema": inp["schemas"][a1.parse::<usize>().unwrap_or(0)], "cbor": inp["cbor_docs"][a2.parse::<usize>().unwrap_or(0)]}),
             "WJ" => json!({"schema": inp["control_schemas"][a1.parse::<usize>().unwrap_or(0)], "json": inp["control_docs"][a2.parse::<usize>().unwrap_or(0)]}),
@@ -385,7 +396,7 @@ pub fn run(tier: Tier) -> i32 {
   run.rule = format!(
     "state = a feature combination (std + a subset of ast-span, ast-comments, ast-parent, json, cbor, csv-validate, additional-controls, freezer). {} \
      transition = build of the driver /verif/c19drv against /repo's working tree with exactly that combination (cargo build --no-default-features; failure = violation), one run of it on the \
-     input file, and comparison of every observation with the all-features build: parse acceptance, FNV of the AST's Debug form with span and *comments* fields removed, formatted text \
+     input file, and comparison of every observation with the all-features build: parse acceptance, FNV of the AST's Debug form with span and *comments* fields removed, with ast-parent the rule reached by climbing the parent index from every top-level operand and operator, formatted text \
      (equal for comment-free documents; for commented documents equal after removing comments, white space and the (optional, meaningless) commas), JSON / CBOR verdicts of type terms of weight <= {} over the C01 alphabet x the JSON universe \
      (CBOR: + CBOR-only values), CSV verdicts of 16 schemas x 11 texts x header flag, control-operator schemas. Documents that use additional-controls or freezer operators are compared \
      only when the combination has that feature (README: the operators exist only then; .pcre is documented to differ without freezer).",
@@ -446,7 +457,7 @@ fn i_matches(inp: &serde_json::Value, key: &str, input: &serde_json::Value) -> b
   let mut f = key.split(' ');
   let (t, a1, a2) = (f.next().unwrap_or(""), f.next().unwrap_or(""), f.next().unwrap_or(""));
   match t {
-    "P" | "A" | "F" => inp[a1][a2.parse::<usize>().unwrap_or(0)] == input["document"],
+    "P" | "A" | "F" | "PV" => inp[a1][a2.parse::<usize>().unwrap_or(0)] == input["document"],
     "VJ" | "VC" => inp["schemas"][a1.parse::<usize>().unwrap_or(0)] == input["schema"],
     _ => true,
   }
